@@ -63,7 +63,7 @@ REJECT_LABELS = {"syntax", "type", "name", "index", "unresolvable", "malformed",
 
 
 def plan(tier, seed):
-    return [{"cmd": c, "part": i, "parts": 5} for c in ("path", "pointer", "patch") for i in range(5)] + [{"cmd": c, "part": -1, "parts": 5, "encodings": True} for c in ("path", "pointer", "patch")]
+    return [{"cmd": c, "part": i, "parts": 5} for c in ("path", "pointer", "patch") for i in range(5)] + [{"cmd": c, "part": -1, "parts": 5, "encodings": True} for c in ("path", "pointer", "patch")] + [{"cmd": c, "part": -2, "parts": 5, "scale": True} for c in ("path", "pointer", "patch")]
 
 
 class Files:
@@ -281,6 +281,25 @@ def run(spec, ctx):
     sub_share = 0.05 if ctx.tier == "quick" else 0.25
     n = 0
     try:
+        if spec.get("scale"):
+            # documents and results of 1 KiB .. 2 MiB (output sizes on either side of 4 KiB, 64 KiB, 1 MiB buffers)
+            for n_items in (20, 80, 1200, 1400, 6000, 24000):
+                big = {"items": [{"id": i, "name": "item-%d" % i, "tags": ["t%d" % (i % 7), "é"]} for i in range(n_items)], "s": "x" * (n_items * 3)}
+                dt = json.dumps(big)
+                exprs_ = {"path": ["$.items[*]", "$..name", "$.s"], "pointer": ["/items", "", "/s"], "patch": [[{"op": "add", "path": "/new", "value": 1}], [{"op": "copy", "from": "/items", "path": "/again"}]]}[cmd]
+                for expr in exprs_:
+                    for pretty, out_file, stdin_ in ((False, False, False), (True, True, False), (True, False, True), (False, True, True)):
+                        opts = {"debug": False, "pretty": pretty, "no_unicode_escape": False, "expr_file": cmd == "path" and pretty, "doc_stdin": stdin_, "out_file": out_file, "no_type_checks": False, "uri_decode": False}
+                        if cmd == "patch":
+                            opts["expr_file"] = False
+                        for sub in (False, True):
+                            check(ctx, files, cmd, "valid", expr, True, opts, sub, REPO, doc_text=dt)
+                            n += 1
+                    shutil.rmtree(tmp, ignore_errors=True)
+                    files = Files(tmp)
+                ctx.cell("document_sizes", "about %d KiB" % (len(dt) // 1024))
+            ctx.count("invocations", n)
+            return
         if spec.get("encodings"):
             # document (and patch) files in every Unicode encoding a JSON file may arrive in, raw non-ASCII content, also under the C locale
             small = {"path": ["$.a[*]", "$..b", "$.s"], "pointer": ["/a/2/b", "/s", "/a/2"], "patch": [[{"op": "add", "path": "/new", "value": [1, {"k": "v"}]}], [], [{"op": "copy", "from": "/s", "path": "/t"}]]}[cmd]
